@@ -163,8 +163,10 @@ QsApply(d, c, k) ==
 RECURSIVE QsApplyAll(_, _, _)
 QsApplyAll(d, c, ks) == IF Len(ks) = 0 THEN d ELSE QsApplyAll(QsApply(d, c, Head(ks)), c, Tail(ks))
 
-QsFits(d, c, ks) ==      \* lists stay within the bound
-    \A i \in 1..Len(ks) : ks[i].kw \in {"l__append", "l__prepend"} => Len(d.rows[c].l) + Len(ks[i].x) <= MaxList
+RECURSIVE ListGrowth(_)
+ListGrowth(ks) == IF Len(ks) = 0 THEN 0
+                  ELSE (IF Head(ks).kw \in {"l__append", "l__prepend"} THEN Len(Head(ks).x) ELSE 0) + ListGrowth(Tail(ks))
+QsFits(d, c, ks) == Len(d.rows[c].l) + ListGrowth(ks) <= MaxList      \* lists stay within the bound
 
 \* ---- conditions
 Applied(op, S) ==
@@ -331,7 +333,11 @@ BatchMembers == <<
 NBM == IF Wide THEN Len(BatchMembers) ELSE 7
 BatchIdx == {<<i, j>> : i \in 1..NBM, j \in 1..NBM} \cup
             (IF MaxBatch >= 3 THEN {<<i, j, k>> : i \in 1..NBM, j \in 1..NBM, k \in 1..NBM} ELSE {})
-IncreasingIdx == {q \in BatchIdx : \A i \in 1..(Len(q) - 1) : q[i] < q[i + 1]}
+\* members that can never share a batch: they write the same cells / both use the instance
+\* ({2, 5, 10}: the save writes column a of the instance's row, which is row 1 or row 2)
+NeverTogether == {{1, 5}, {1, 9}, {1, 6}, {1, 7}, {1, 10}, {6, 7}, {6, 10}, {7, 10}, {5, 9}, {2, 5, 10}}
+IncreasingIdx == {q \in BatchIdx : /\ \A i \in 1..(Len(q) - 1) : q[i] < q[i + 1]
+                                   /\ \A T \in NeverTogether : ~(T \subseteq {q[i] : i \in 1..Len(q)})}
 RECURSIVE SeqOfIdx(_)
 SeqOfIdx(T) == IF T = {} THEN <<>> ELSE LET q == CHOOSE x \in T : TRUE IN <<q>> \o SeqOfIdx(T \ {q})
 Batches == LET qs == SeqOfIdx(IncreasingIdx) IN
